@@ -70,7 +70,67 @@ type caseC17 struct {
 	// OverP: the program runs with GOMAXPROCS = NumCPU + 3 (more Ps than usable CPUs: an orchestrator that fixes GOMAXPROCS while a
 	// cpuset shrinks the affinity mask, or an I/O-heavy service that raises it) and makes a few dozen calls before the one it reports.
 	OverP bool `json:"over_p,omitempty"`
+	// Bubble (only together with Go126): the program is a TEST binary built with the newer toolchain that links testing/synctest; the
+	// first hashing call of the process runs inside a synctest bubble (the usual way to test protocol code on a fake clock), after an
+	// hour of fake time a goroutine of the bubble calls again, then the test calls from outside of any bubble and from a second
+	// bubble. Whatever the package creates lazily in its first call (channels, timers, goroutines) then belongs to the first bubble.
+	Bubble bool `json:"bubble,omitempty"`
 }
+
+const bubbleTemplate = `package verifprog
+
+import (
+	"os"
+	"testing"
+	"testing/synctest"
+	"time"
+
+	secp "github.com/bytemare/secp256k1"
+)
+
+var (
+	msg = []byte{%s}
+	dst = []byte{%s}
+)
+
+func compute() []byte {
+	switch %q {
+	case "HashToGroup":
+		return secp.HashToGroup(msg, dst).Encode()
+	case "EncodeToGroup":
+		return secp.EncodeToGroup(msg, dst).Encode()
+	default:
+		return secp.HashToScalar(msg, dst).Encode()
+	}
+}
+
+func TestFirstCallInBubble(t *testing.T) {
+	var results [][]byte
+	synctest.Test(t, func(t *testing.T) {
+		results = append(results, compute()) // the first hashing call of the process
+		time.Sleep(time.Hour)                // (fake clock)
+		done := make(chan []byte)
+		go func() { done <- compute() }()
+		results = append(results, <-done)
+		synctest.Wait()
+	})
+	results = append(results, compute()) // outside of any bubble
+	synctest.Test(t, func(t *testing.T) { results = append(results, compute()) })
+	results = append(results, compute())
+	out := results[0]
+	for _, r := range results {
+		if string(r) != string(out) {
+			out = []byte("bubbles disagree")
+		}
+	}
+	const digits = "0123456789abcdef"
+	b := make([]byte, 0, 2*len(out))
+	for _, c := range out {
+		b = append(b, digits[c>>4], digits[c&15])
+	}
+	os.Stdout.WriteString("RESULT=" + string(b) + "\n")
+}
+`
 
 // writeFork copies the non-test sources of the tree under test into dir/fork as module example.com/fork/secp256k1.
 func writeFork(dir string) error {
@@ -385,7 +445,7 @@ func runC17(c caseC17, o *gen.Obs) error {
 	o.ClassIf(otherLinks, "sha256-linked-by-others")
 	o.ClassIf(c.Wrap, "registry-replaced")
 	o.ClassIf(c.Rejected > 0, "after-rejected-calls")
-	o.NonTrivialIf(!otherLinks || c.Wrap || c.Rejected > 0 || c.SingleP || c.Arch386 || c.DeadStderr || c.Where != "" || c.Outage || c.IdleMs > 0 || c.Fork || c.Tracer || c.Godebug != "" || c.OverP)
+	o.NonTrivialIf(!otherLinks || c.Wrap || c.Rejected > 0 || c.SingleP || c.Arch386 || c.DeadStderr || c.Where != "" || c.Outage || c.IdleMs > 0 || c.Fork || c.Tracer || c.Godebug != "" || c.OverP || c.Bubble)
 
 	dir, err := os.MkdirTemp("", "verif-c17-")
 	if err != nil {
@@ -429,15 +489,33 @@ func runC17(c caseC17, o *gen.Obs) error {
 		}
 	}
 	tool := "go"
+	bubble := false
 	if c.Go126 {
 		if path, lerr := exec.LookPath("go1.26.8"); lerr == nil {
 			tool = path
 			o.Class("toolchain:go1.26.8")
+			bubble = c.Bubble
 		} else {
 			o.Class("skipped:no-newer-toolchain")
 		}
 	}
 	build := exec.Command(tool, "build", "-o", "prog", ".")
+	if bubble {
+		// a test binary of a module that says go 1.25 (bubble semantics of channels and timers), first call inside synctest.Test
+		o.Class("first-call-in-synctest-bubble")
+		_ = os.Remove(filepath.Join(dir, "main.go"))
+		_ = os.Remove(filepath.Join(dir, "wrap.go"))
+		_ = os.Remove(filepath.Join(dir, "fork.go"))
+		bsrc := fmt.Sprintf(bubbleTemplate, byteList(msg), byteList(dst), c.Fn)
+		bmod := fmt.Sprintf("module verifprog\n\ngo 1.25\n\nrequire github.com/bytemare/secp256k1 v0.0.0\n\nreplace github.com/bytemare/secp256k1 => %s\n", repoDir())
+		if err := os.WriteFile(filepath.Join(dir, "bubble_test.go"), []byte(bsrc), 0o644); err != nil {
+			return &gen.Inconclusive{Msg: err.Error()}
+		}
+		if err := os.WriteFile(filepath.Join(dir, "go.mod"), []byte(bmod), 0o644); err != nil {
+			return &gen.Inconclusive{Msg: err.Error()}
+		}
+		build = exec.Command(tool, "test", "-c", "-vet=off", "-o", "prog", ".")
+	}
 	build.Dir, build.Env = dir, goEnv()
 	if c.Arch386 {
 		build.Env = append(build.Env, "GOARCH=386", "CGO_ENABLED=0")
@@ -602,7 +680,8 @@ var c17 = gen.Register(&gen.Check[caseC17]{
 			{Fn: "HashToGroup", Msg: "616263", Dst: dst, IdleMs: 1200}, {Fn: "HashToScalar", Msg: "616263", Dst: hex.EncodeToString(bytes.Repeat([]byte{'i'}, 300)), IdleMs: idleLong()},
 			{Fn: "HashToGroup", Msg: "616263", Dst: dst, Tracer: true}, {Fn: "HashToScalar", Msg: "616263", Dst: dst, Tracer: true, SingleP: true},
 			{Fn: "HashToGroup", Msg: "616263", Dst: dst, Fork: true}, {Fn: "HashToScalar", Msg: "616263", Dst: hex.EncodeToString(bytes.Repeat([]byte{'f'}, 300)), Fork: true},
-			{Fn: "HashToGroup", Msg: "616263", Dst: dst, Go126: go126()}, {Fn: "HashToScalar", Msg: "616263", Dst: hex.EncodeToString(bytes.Repeat([]byte{'n'}, 300)), Go126: go126(), Where: "goroutine"},
+			{Fn: "HashToGroup", Msg: "616263", Dst: dst, Go126: go126()}, {Fn: "HashToScalar", Msg: "616263", Dst: dst, Go126: go126(), Bubble: go126()}, {Fn: "HashToGroup", Msg: "616263", Dst: hex.EncodeToString(bytes.Repeat([]byte{'b'}, 300)), Go126: go126(), Bubble: go126(), SingleP: true},
+			{Fn: "HashToScalar", Msg: "616263", Dst: hex.EncodeToString(bytes.Repeat([]byte{'n'}, 300)), Go126: go126(), Where: "goroutine"},
 			{Fn: "HashToGroup", Msg: "616263", Dst: dst, Outage: true}, {Fn: "EncodeToGroup", Msg: "616263", Dst: dst, Outage: true}, {Fn: "HashToScalar", Msg: "616263", Dst: dst, Outage: true},
 			{Fn: "HashToGroup", Msg: "616263", Dst: dst, OverP: true}, {Fn: "HashToScalar", Msg: "616263", Dst: dst, OverP: true, Where: "crowd"},
 			{Fn: "HashToGroup", Msg: "616263", Dst: dst, Where: "crowd", SingleP: true, Godebug: "asyncpreemptoff=1", Wrap: true},
